@@ -260,6 +260,7 @@ theorem cand_agree {T : Table} {s : MState} {h : HState}
       | op _ => rfl
       | io => rfl
       | bad => rfl
+      | assignArr => rfl
 
 /-- Lock-step run: if some property `P` of the pair of states (i) implies that the two blank rules give
     the same answer and (ii) is preserved by lock steps, then model and Spec agree for ever. -/
